@@ -35,7 +35,7 @@ MC_PLAN = {
     "C13": [("caps", True), ("sim", True), ("capsf5", False)],
     "C14": [("ints", True), ("bytes", True), ("core", True)],
 }
-SIM = {"quick": ("2", "20"), "thorough": ("12", "40")}      # (number of walks, depth) of TLC -simulate
+SIM = {"quick": ("2", "20"), "thorough": ("24", "40")}      # (number of walks, depth) of TLC -simulate
 
 
 def canonical_small(b):
@@ -303,7 +303,7 @@ def check(prop, tier, seed):
     if tier == "quick":
         shards, n, ln = 4, 14, 110
     else:
-        shards, n, ln = 16, 80, 200
+        shards, n, ln = 16, 120, 200
     jobs = [("rec%d" % s, ["record", "--seed", str(seed * 1000 + s), "--n", str(n), "--len", str(ln), "--profile", prof])
             for s in range(shards)]
     if prop == "C14":
